@@ -439,6 +439,13 @@ def run(chk):
                  ("GET", "/" + "b" * 300), ("HEAD", "/%zz"), ("POST", "/bk1/%zz?uploads"), ("GET", "/bk1/obj?versionId=../x"), ("GET", "/bk1?max-keys=x")]
         # request targets that are no path (asterisk form, a bare word): the loggers take bucket and object from the path
         early += [("GET", "*"), ("OPTIONS", "*"), ("PUT", "*"), ("GET", "bk1"), ("DELETE", "bk1/obj"), ("GET", "http://127.0.0.1/bk1")]
+        # (a bare-word target signed for either reading of its canonical path)
+        for method, raw, signed_as in (("GET", "bk1", "/bk1"), ("GET", "bk1", "bk1"), ("PUT", "bk1/obj-bare", "/bk1/obj-bare"), ("GET", "bk1/obj", "bk1/obj"), ("DELETE", "bk1", "/bk1")):
+            t0 = time.time()
+            try: r = cl.req(method, signed_as, raw_path=raw, body=b"x" if method == "PUT" else b"")
+            except Exception: chk.count("client-refused"); continue
+            chk.case(("bare-target", method, raw, signed_as), True); chk.count("bare-target:%dxx" % (r.status // 100 if r.status > 0 else 0))
+            after("%s with the request target %r (signed for the canonical path %r)" % (method, raw, signed_as), method, r, time.time() - t0, {"method": method, "raw_target": raw, "signed_as": signed_as})
         for method, raw in early:
             for signed in (True, False):
                 t0 = time.time()
